@@ -371,6 +371,13 @@ class CallMixin:
                                 return None
                             if g[0] == "piece":
                                 return tx.pieces[g[1]]
+                            if g[0] == "span":
+                                cells = textlex._cells[(recv.obj.pattern, recv.obj.flags,
+                                                        textlex.shape_of(tx))]
+                                ps = []
+                                for cc in cells[g[1]:g[2]]:
+                                    ps.append(cc[1] if cc[0] == "c" else tx.pieces[cc[2]])
+                                return _Text(ps).simplest()
                             if g[0] == "sub":
                                 # digits off..off+w of a W-digit field: (v div 10^(W-off-w)) mod 10^w
                                 f = tx.pieces[g[1]]
